@@ -119,6 +119,8 @@ class Truth:
         self.obj = obj
         self.cache = {}
         self.rng = random.Random(seed)
+        big = max((netgt.maxabs(m) for m in obj.data), default=1.0)
+        self.moderate = 1e-3 <= big <= 1e3
 
     def get(self, p, f):
         key = (p, f)
@@ -136,6 +138,11 @@ class Truth:
                     slack = 0.0
                 else:
                     slack = 1e3 * netgt.EPS * cond * norm
+                    # conversion accuracy at extreme magnitudes is the
+                    # subject of C04, not of the file checks: a converted
+                    # parameter is compared only for moderately scaled data
+                    if not self.moderate:
+                        cond = float("inf")
                 self.cache[key] = (g, cond, slack)
             except (ZeroDivisionError, ValueError, OverflowError):
                 self.cache[key] = (None, float("inf"), 0.0)
